@@ -260,6 +260,97 @@ Proof.
     rewrite IH by (cbn [length] in Hf; lia). reflexivity.
 Qed.
 
+(* ================= satisfiability of the hypotheses, for every body ================= *)
+(* ---------- a canonical way of writing a chunk size: every length has a size line ---------- *)
+Definition hexchar (v : N) : N := if v <? 10 then 48 + v else 87 + v.
+Fixpoint hex_digits (fuel : nat) (n : N) (acc : str) : str :=
+  match fuel with
+  | O => acc
+  | S f => let acc' := hexchar (n mod 16) :: acc in if n / 16 =? 0 then acc' else hex_digits f (n / 16) acc'
+  end.
+Definition hex_of (n : N) : str := hex_digits (S (N.to_nat n)) n [].
+
+Lemma hex_digits_S f n acc : hex_digits (S f) n acc =
+  if n / 16 =? 0 then hexchar (n mod 16) :: acc else hex_digits f (n / 16) (hexchar (n mod 16) :: acc).
+Proof. reflexivity. Qed.
+
+Definition hstep (a c : N) : N := a * 16 + match hexval c with Some v => v | None => 0 end.
+Definition hexok (c : N) : Prop := hexval c <> None.
+
+Lemma hexval_hexchar v : v < 16 -> hexval (hexchar v) = Some v.
+Proof.
+  intro H. unfold hexchar, hexval. destruct (v <? 10) eqn:E.
+  - apply N.ltb_lt in E. replace ((48 <=? 48 + v) && (48 + v <=? 57)) with true.
+    + f_equal. lia.
+    + symmetry. apply andb_true_iff. split; apply N.leb_le; lia.
+  - apply N.ltb_ge in E. replace ((48 <=? 87 + v) && (87 + v <=? 57)) with false.
+    + replace ((97 <=? 87 + v) && (87 + v <=? 102)) with true.
+      * f_equal. lia.
+      * symmetry. apply andb_true_iff. split; apply N.leb_le; lia.
+    + symmetry. apply andb_false_iff. right. apply N.leb_gt. lia.
+Qed.
+
+Lemma hex_go_all s : Forall hexok s -> forall acc, hex_go acc s = (fold_left hstep s acc, []).
+Proof.
+  induction 1 as [|c s Hc _ IH]; intro acc; [reflexivity|]. cbn [hex_go fold_left]. unfold hstep at 2.
+  unfold hexok in Hc. destruct (hexval c); [apply IH | contradiction Hc; reflexivity].
+Qed.
+
+Lemma hex_digits_acc f : forall n acc, hex_digits f n acc = hex_digits f n [] ++ acc.
+Proof.
+  induction f as [|f IH]; intros n acc; [reflexivity|]. cbn [hex_digits]. cbv zeta.
+  destruct (n / 16 =? 0); [reflexivity|]. rewrite (IH _ (_ :: acc)), (IH _ [_]), <- app_assoc. reflexivity.
+Qed.
+
+Lemma hex_digits_ok f : forall n, Forall hexok (hex_digits f n []) /\ (f <> O -> hex_digits f n [] <> []).
+Proof.
+  induction f as [|f IH]; intro n; [split; [constructor | intro H; contradiction H; reflexivity]|].
+  cbn [hex_digits]. cbv zeta.
+  assert (Hc : hexok (hexchar (n mod 16))).
+  { unfold hexok. rewrite hexval_hexchar; [discriminate|]. apply N.mod_lt. discriminate. }
+  destruct (n / 16 =? 0).
+  - split; [repeat constructor; exact Hc | intros _; discriminate].
+  - rewrite hex_digits_acc. split.
+    + apply Forall_app. split; [apply IH | repeat constructor; exact Hc].
+    + intros _ E. apply app_eq_nil in E as [_ E]. discriminate E.
+Qed.
+
+Lemma hex_digits_val fuel : forall n, (N.to_nat n <= fuel)%nat -> fold_left hstep (hex_digits (S fuel) n []) 0 = n.
+Proof.
+  induction fuel as [|fuel IH]; intros n Hn.
+  - assert (n = 0) by lia. subst. reflexivity.
+  - rewrite hex_digits_S. destruct (n / 16 =? 0) eqn:E.
+    + apply N.eqb_eq in E. cbn [fold_left]. unfold hstep. rewrite hexval_hexchar by (apply N.mod_lt; discriminate).
+      pose proof (N.div_mod n 16 ltac:(discriminate)) as D. rewrite E in D. lia.
+    + apply N.eqb_neq in E. rewrite (hex_digits_acc (S fuel) (n / 16) [_]), fold_left_app.
+      assert (Hq : (N.to_nat (n / 16) <= fuel)%nat).
+      { assert (n / 16 < n) by (apply N.div_lt; [destruct n; [contradiction E; reflexivity | lia] | reflexivity]). lia. }
+      rewrite (IH _ Hq). cbn [fold_left]. unfold hstep. rewrite hexval_hexchar by (apply N.mod_lt; discriminate).
+      pose proof (N.div_mod n 16 ltac:(discriminate)) as D. lia.
+Qed.
+
+(* every length has a size line, so the hypotheses of the stream theorems are satisfiable for every body and chunking *)
+Lemma parse_size_hex_of n : parse_size (hex_of n) = Some n /\ no_cr (hex_of n).
+Proof.
+  unfold hex_of. destruct (hex_digits_ok (S (N.to_nat n)) n) as [Hok Hne]. specialize (Hne ltac:(discriminate)).
+  split.
+  - unfold parse_size. destruct (hex_digits (S (N.to_nat n)) n []) as [|c s] eqn:E; [contradiction Hne; reflexivity|].
+    inversion Hok as [|? ? Hc Hs]; subst. unfold hexok in Hc. destruct (hexval c) eqn:Ec; [|contradiction Hc; reflexivity].
+    rewrite (hex_go_all (c :: s) Hok 0). rewrite <- E. rewrite (hex_digits_val (N.to_nat n) n (le_n _)). reflexivity.
+  - intro Hin. rewrite Forall_forall in Hok. apply Hok in Hin. apply Hin. reflexivity.
+Qed.
+
+Lemma every_body_has_a_rendering (chunks : list str) : Forall (fun d => d <> []) chunks ->
+  let cs := map (fun d => (hex_of (N.of_nat (length d)), d)) chunks in
+  Forall chunk_ok cs /\ last_ok (hex_of 0) /\ concat (map snd cs) = concat chunks.
+Proof.
+  intro H. cbv zeta. split; [|split].
+  - apply Forall_map. eapply Forall_impl; [|exact H]. intros d Hd. unfold chunk_ok. cbn [fst snd].
+    destruct (parse_size_hex_of (N.of_nat (length d))) as [A B]. repeat split; assumption.
+  - destruct (parse_size_hex_of 0) as [A B]. split; assumption.
+  - rewrite map_map. cbn [snd]. rewrite map_id. reflexivity.
+Qed.
+
 (* ================= the concrete framing decision used for the runs ================= *)
 (* "Transfer-Encoding: chunked" wins, else "Content-Length: n" (n > 0 bytes of body follow), else no body *)
 Fixpoint atoi_go (acc : N) (s : str) : N :=
